@@ -136,7 +136,10 @@ type sm2Obj struct {
 	pub     *ecdsa.PublicKey // separate public key object (shared too)
 	peer    *sm2.PrivateKey
 	ct      []byte
-	ctBig   []byte // 300..470-byte message: the KDF runs its 8-lane batches plus a tail
+	ctBig   []byte          // 300..470-byte message: the KDF runs its 8-lane batches plus a tail
+	legacy  *sm2.PrivateKey // a key on NIST P-256: the generic (non-SM2-curve) code path
+	ctForms [][]byte        // shared ciphertexts for priv and legacy with compressed, hybrid and uncompressed C1
+	ctFormK []*sm2.PrivateKey
 	ctASN1  []byte
 	hash    []byte
 	sig     []byte
@@ -161,6 +164,19 @@ func newSM2Obj(seed uint64) any {
 	o.ct = shared(must(sm2.Encrypt(gen.NewDetReader(seed+9), &cp.PublicKey, msg, nil)))
 	o.ctASN1 = shared(must(sm2.EncryptASN1(gen.NewDetReader(seed+10), &cp.PublicKey, msg)))
 	o.ctBig = shared(must(sm2.Encrypt(gen.NewDetReader(seed+12), &cp.PublicKey, gen.Fill(gen.Mix(seed, 5), 300+int(seed%171)), nil)))
+	o.legacy = new(sm2.PrivateKey)
+	o.legacy.Curve = elliptic.P256()
+	o.legacy.D = new(big.Int).SetBytes(gen.Fill(gen.Mix(seed, 6), 31))
+	o.legacy.X, o.legacy.Y = elliptic.P256().ScalarBaseMult(o.legacy.D.Bytes())
+	lcp := &sm2.PrivateKey{PrivateKey: ecdsa.PrivateKey{PublicKey: ecdsa.PublicKey{Curve: elliptic.P256(), X: o.legacy.X, Y: o.legacy.Y}, D: o.legacy.D}}
+	for k, key := range []*sm2.PrivateKey{cp, lcp} {
+		for f, form := range []sm2.EncrypterOpts{*sm2.NewPlainEncrypterOpts(sm2.MarshalCompressed, sm2.C1C3C2), *sm2.NewPlainEncrypterOpts(sm2.MarshalHybrid, sm2.C1C3C2), *sm2.NewPlainEncrypterOpts(sm2.MarshalUncompressed, sm2.C1C2C3)} {
+			form := form
+			ct := must(sm2.Encrypt(gen.NewDetReader(seed+20+uint64(3*k+f)), &key.PublicKey, msg, &form))
+			o.ctForms = append(o.ctForms, shared(ct))
+			o.ctFormK = append(o.ctFormK, []*sm2.PrivateKey{o.priv, o.legacy}[k])
+		}
+	}
 	o.hash = shared(gen.Fill(gen.Mix(seed, 4), 32))
 	o.sig = shared(must(sm2.SignASN1(gen.NewDetReader(seed+11), cp, o.hash, nil)))
 	o.uidA = shared([]byte("alice"))
@@ -234,6 +250,25 @@ var kindSM2 = kind{name: "sm2-key", setup: newSM2Obj, ops: []op{
 			return "", fmt.Errorf("long ciphertext made concurrently does not decrypt: %v", err)
 		}
 		return hx(pt[:16]) + "/" + hx(ct[len(ct)-16:]), nil
+	}},
+	{"decrypt-shared-forms", false, func(obj any, g, i int, seed uint64) (string, error) {
+		// one ciphertext SLICE per C1 form (compressed, hybrid, uncompressed) and per
+		// code path (SM2 curve, generic curve), opened by every goroutine: a decoder
+		// that normalises its input in place - even temporarily - races on it
+		o := obj.(*sm2Obj)
+		res := ""
+		for k, ct := range o.ctForms {
+			var opts *sm2.DecrypterOpts
+			if k%3 == 2 {
+				opts = sm2.NewPlainDecrypterOpts(sm2.C1C2C3)
+			}
+			pt, err := o.ctFormK[k].Decrypt(nil, ct, opts)
+			if err != nil {
+				return "", fmt.Errorf("shared ciphertext %d (C1 form %d, key %d) refused under concurrency: %v", k, k%3, k/3, err)
+			}
+			res += hx(pt[:4])
+		}
+		return res, nil
 	}},
 	{"verify", false, func(obj any, g, i int, seed uint64) (string, error) {
 		o := obj.(*sm2Obj)
